@@ -11,7 +11,7 @@ from .tagtable import constructors
 from . import tr
 from . import mergetrace as mt
 from ..fde import FDE, Obj, Opaque
-from .common import fde_guard, PRIOS, thorough
+from .common import fde_guard, PRIOS, thorough, node_obj
 
 from .common import Guard  # noqa: E402
 
@@ -160,7 +160,14 @@ def r2(repo, run):
             f = FDE(repo)
             f.externals = {'inspect.Parameter.' + k: v[1] for k, v in kinds.items()}
             f.extcalls = {'inspect.signature': lambda fn, sigobj=sigobj: sigobj}
-            r = fde_guard(lambda: f.call(fi, Opaque('target'), dict(args)))
+            target = Obj('target', 'object')
+            target.f['__code__'] = Obj('code', 'object', co_varnames=('self',) + tuple(n for n, _ in sig), co_argcount=1 + len([1 for _, k in sig if k in (PO, POK)]),
+                                       co_posonlyargcount=len([1 for _, k in sig if k == PO]), co_kwonlyargcount=len([1 for _, k in sig if k == KO]))
+            target.f['__func__'] = Opaque('underlying function')
+            target.f['__self__'] = Opaque('receiver')
+            target.f['__name__'] = 'target'
+            f.extcalls['inspect.signature'] = lambda fn, sigobj=sigobj: sigobj
+            r = fde_guard(lambda: f.call(fi, target, dict(args)))
             rows += 1
             exp = _expected(sig, dict(args))
             if exp == 'ValueError':
@@ -216,6 +223,52 @@ def r3(repo, run):
         raise AnalysisError('FunctionNode.on_merge_impl: expected assignments of self._func on the string and the function-node branch, found %d' % n_store)
     for v in sorted(verdicts):
         (run.ok if v[0] == 'ok' else run.violation)('C13.R3', fi, 'FunctionNode merge', v[1])
+
+
+def r3b(repo, run):
+    """FunctionNode.ayns.on_merge_impl evaluated (finite-domain evaluator) for two function nodes over (same / other target) x priorities x
+    delete flag of the newer node: a losing node with another target is ignored entirely (its arguments are not merged into the kept
+    target); a winning one replaces the target, clears the old arguments unless told to merge, then the arguments are merged"""
+    fi = repo.func('FunctionNode.ayns.on_merge_impl')
+    bad = []
+    rows = 0
+    for same in (True, False):
+        for a in PRIOS:
+            for b in PRIOS:
+                for d in (None, True, False):
+                    me = node_obj('self', 'CallNode', _priority=a, _func='f', _children={})
+                    ot = node_obj('other', 'CallNode', _priority=b, _func=('f' if same else 'g'), _delete=d, _children={})
+                    log = []
+
+                    def stub(name, recv, args, kwargs, log=log):
+                        log.append((name, getattr(recv, 'name', None)))
+                        return recv
+                    f = FDE(repo, stubs={'on_merge_impl', 'clear', '_replace_self', '_replace_other', '_maybe_promote', '_propagate_implicit_values', '_propagate_priority'}, stub=stub)
+                    r = fde_guard(lambda: f.call(fi, me, 'p', ot))
+                    rows += 1
+                    if r.raised:
+                        raise AnalysisError('FunctionNode.on_merge_impl: not evaluable (%s)' % r.raised)
+                    merged = ('on_merge_impl', 'self') in log
+                    cleared = ('clear', 'self') in log
+                    newer_wins = mt.P(b) >= mt.P(a)
+                    eff_delete = d if d is not None else True          # function nodes delete by default
+                    if same:
+                        want = dict(func='f', merged=True)
+                        got = dict(func=me.f.get('_func'), merged=merged)
+                    elif newer_wins:
+                        want = dict(func='g', merged=True, cleared=bool(eff_delete))
+                        got = dict(func=me.f.get('_func'), merged=merged, cleared=cleared)
+                    else:
+                        want = dict(func='f', merged=False, cleared=False)
+                        got = dict(func=me.f.get('_func'), merged=merged, cleared=cleared)
+                    if got != want:
+                        bad.append(('same target' if same else 'other target', a, b, d, got, want))
+    run.table('C13.R3', rows, 'function-node merge over (target same/other) x priorities x delete flag')
+    if bad:
+        t, a, b, d, got, want = bad[0]
+        run.violation('C13.R3', fi, 'function-node merge table', '%s, older priority %r, newer priority %r, newer delete=%r: %s; expected %s (a losing node with another target must be ignored entirely - its arguments would be passed to the kept target)' % (t, a, b, d, got, want), witness=[str(x) for x in bad[:5]])
+    else:
+        run.ok('C13.R3', fi, 'function-node merge table (%d rows)' % rows, 'loser with another target ignored; winner replaces target, clears unless merge, then arguments merged')
 
 
 def r4(repo, run):
@@ -280,6 +333,7 @@ def check(repo, run, tier):
     g(r1, repo, run)
     g(r2, repo, run)
     g(r3, repo, run)
+    g(r3b, repo, run)
     g(r4, repo, run)
     g.done()
 
